@@ -2880,7 +2880,7 @@ let rec index_of x l i =
 
 let attractors g u e =
   bind (eval_ef_saturated g u (eval_hctl_var g u e)) (fun ef ->
-    bind (eval_ag g u ef) (fun ag -> Ok (eval_bind g u ag e)))
+    bind (eval_ag g u ef) (fun ag -> Ok (eval_bind g u (tand ag u) e)))
 
 (** val foreign_restriction : dommap -> (str * str) list -> bool **)
 
